@@ -157,7 +157,7 @@ func (w *World) sliceOp(fr *frame, instr *ssa.Slice) Value {
 	}
 	switch x := x.(type) {
 	case Str:
-		if x.opq || x.tok != nil {
+		if x.opq || x.tok != nil || x.cat != nil {
 			w.unsupported(fr, "slice of a string with unknown content")
 		}
 		n := int64(x.Len())
@@ -392,8 +392,31 @@ func (w *World) binop(fr *frame, op token.Token, t types.Type, x, y Value) Value
 					return Str{tok: &StrTok{kind: "host", host: &HostTok{ip: xv.tok.host.ip, zone: ys}}}
 				}
 			}
-			if xv.opq || yv.opq || xv.tok != nil || yv.tok != nil {
+			if xv.opq || yv.opq {
 				return Str{opq: true, taint: xv.taint | yv.taint}
+			}
+			if xv.tok != nil || yv.tok != nil || xv.cat != nil || yv.cat != nil {
+				var parts []Str
+				for _, p := range []Str{xv, yv} {
+					if p.cat != nil {
+						parts = append(parts, p.cat...)
+					} else if p.tok != nil || p.Len() > 0 {
+						parts = append(parts, p)
+					}
+				}
+				// merge adjacent byte strings
+				var merged []Str
+				for _, p := range parts {
+					if n := len(merged); n > 0 && merged[n-1].tok == nil && p.tok == nil {
+						merged[n-1] = w.mkStr(append(append([]*Term{}, w.strBytes(merged[n-1])...), w.strBytes(p)...))
+					} else {
+						merged = append(merged, p)
+					}
+				}
+				if len(merged) == 1 {
+					return merged[0]
+				}
+				return Str{cat: merged, taint: xv.taint | yv.taint}
 			}
 			if xv.b == nil && yv.b == nil {
 				return Str{s: xv.s + yv.s, taint: xv.taint | yv.taint}
@@ -564,6 +587,33 @@ func (w *World) equals(t types.Type, x, y Value) *Term {
 }
 
 func (w *World) strEq(x, y Str) *Term {
+	if x.cat != nil || y.cat != nil {
+		xp, yp := x.cat, y.cat
+		if xp == nil {
+			xp = []Str{x}
+		}
+		if yp == nil {
+			yp = []Str{y}
+		}
+		if len(xp) != len(yp) {
+			// different shapes: a concrete/byte string against a composite with an abstract part
+			if (x.cat == nil && x.tok == nil && !x.opq) || (y.cat == nil && y.tok == nil && !y.opq) {
+				panic(pathEnd{"unsupported", "comparison of a composite abstract string with a byte string"})
+			}
+			panic(pathEnd{"unsupported", "comparison of composite strings of different shape"})
+		}
+		conj := make([]*Term, len(xp))
+		for i := range xp {
+			if (xp[i].tok == nil) != (yp[i].tok == nil) {
+				panic(pathEnd{"unsupported", "comparison of composite strings of different shape"})
+			}
+			if xp[i].tok == nil && xp[i].Len() != yp[i].Len() {
+				panic(pathEnd{"unsupported", "comparison of composite strings with different part lengths"})
+			}
+			conj[i] = w.strEq(xp[i], yp[i])
+		}
+		return w.tt.And(conj...)
+	}
 	if x.tok != nil || y.tok != nil {
 		return w.tokEq(x, y)
 	}
@@ -618,7 +668,7 @@ func (w *World) conv(fr *frame, tdst, tsrc types.Type, x Value) Value {
 		if s.tok != nil && s.tok.kind == "proto" {
 			return []Value{*s.tok.pt}
 		}
-		if s.opq || s.tok != nil {
+		if s.opq || s.tok != nil || s.cat != nil {
 			w.unsupported(fr, "bytes of a string with unknown content")
 		}
 		switch ut_dst.Elem().Underlying().(*types.Basic).Kind() {
@@ -857,6 +907,9 @@ func (w *World) lookup(fr *frame, instr *ssa.Lookup, x, idx Value) Value {
 		}
 		return v
 	case Str:
+		if t, ok := idx.(*Term); ok && !t.IsConst() && x.Len() <= 256 {
+			return w.symIndexStr(fr, x, t, instr.Index.Type())
+		}
 		i := w.index(fr, idx, instr.Index.Type(), x.Len())
 		return w.strAt(x, i)
 	}
@@ -1046,7 +1099,7 @@ func (w *World) callBuiltin(fr *frame, fn *ssa.Builtin, args []Value) Value {
 	case "len":
 		switch x := args[0].(type) {
 		case Str:
-			if x.opq || x.tok != nil {
+			if x.opq || x.tok != nil || x.cat != nil {
 				w.unsupported(fr, "len of a string with unknown content")
 			}
 			return tt.BV(64, uint64(x.Len()))
@@ -1185,4 +1238,24 @@ func (w *World) zeroLike(v Value) Value {
 		return (*ssa.Function)(nil)
 	}
 	return v
+}
+
+// symIndexStr reads s[idx] for a symbolic index as an ite-chain (after a forked
+// bounds check), instead of forking over every index value.
+func (w *World) symIndexStr(fr *frame, s Str, idx *Term, it types.Type) *Term {
+	signed := true
+	if b := basicOf(it); b != nil {
+		_, signed, _ = intWidth(b)
+	}
+	i64 := w.tt.Resize(idx, 64, signed)
+	n := s.Len()
+	inb := w.tt.Cmp(OpULt, i64, w.tt.BV(64, uint64(n)))
+	if !w.decideBool(inb, "bounds@"+w.posLabel(fr, fr.curInstr)) {
+		w.rtPanic(fr, fmt.Sprintf("index out of range [symbolic] with length %d", n))
+	}
+	res := w.strAt(s, n-1)
+	for k := n - 2; k >= 0; k-- {
+		res = w.tt.Ite(w.tt.Eq(i64, w.tt.BV(64, uint64(k))), w.strAt(s, k), res)
+	}
+	return res
 }
